@@ -194,16 +194,29 @@ def build_one(spec, workdir, timeout=900):
     d = os.path.join(workdir, spec.name + "_b")
     os.makedirs(d, exist_ok=True)
     cc, cflags, ldflags = spec.cc, list(spec.cflags), list(spec.ldflags)
+    directives, options = dict(spec.directives), dict(spec.options)
+    # C39: one configuration cell applied to every module a check builds
+    if os.environ.get("VERIF_EXTRA_CFLAGS"):
+        cflags = cflags + os.environ["VERIF_EXTRA_CFLAGS"].split()
+    if os.environ.get("VERIF_EXTRA_DIRECTIVES"):
+        for k, v in json.loads(os.environ["VERIF_EXTRA_DIRECTIVES"]).items():
+            directives.setdefault(k, v)
+    if os.environ.get("VERIF_CPLUS") and not options.get("cplus"):
+        options["cplus"] = True
+        if cc == "gcc" or cc is None:
+            cc = None
+        elif cc == "clang":
+            cc = "clang++"
     if SANITIZE:
         # C36: the same modules, instrumented with ASan + UBSan (clang); reports abort the child
-        cplus = bool(spec.options.get("cplus")) or (cc in ("g++", "clang++"))
+        cplus = bool(options.get("cplus")) or (cc in ("g++", "clang++"))
         cc = "clang++" if cplus else "clang"
         san = ["-fsanitize=address,undefined", "-fno-sanitize-recover=undefined", "-fno-omit-frame-pointer", "-g1"]
         cflags = cflags + san
         ldflags = ldflags + ["-fsanitize=address,undefined", "-shared-libasan"]
     req = {
         "name": spec.name, "source": spec.source, "kind": spec.kind,
-        "directives": spec.directives, "options": spec.options,
+        "directives": directives, "options": options,
         "cflags": cflags, "ldflags": ldflags, "cc": cc, "facts": spec.facts,
         "cython_only": spec.cython_only, "dir": d, "include": py_include(),
         "suffix": ext_suffix(),
